@@ -257,7 +257,7 @@ PROPS['C20'] = dict(
          'a set of 3..20 ids (or 0) and one of 11 types; the resolver replies to one of the last 24 forwarded queries or with an id never forwarded, '
          'once or twice. Oracle: each request produces exactly one well-formed query with the same id, name, type at the local DNS port; a reply with '
          'id X is sent unchanged, at most once per copy, only to requesters that used X among the 16 most recently forwarded queries, to at least one '
-         'of them, and to nobody if there is none. unit case (1 in 3) = random put/get sequences on fw_query against the last-16 model. non-trivial iff '
+         'of them, and to nobody if there is none; one datagram in six from the local DNS port is a runt of 1..11 bytes, which may reach at most the requester who asked with its first two bytes as id. unit case (1 in 3) = random put/get sequences on fw_query against the last-16 model. non-trivial iff '
          '> 16 outstanding, an id was reused and an unmatched reply occurred (system) / > 16 puts (unit)',
     exhaustive_text='fw_query_put/get: every prefix of 0..20 distinct-id puts x every sequence of 5 operations over put(id 0..2, requester 0..1) / get(id 0..3) (2.1 M sequences)',
     engine_text='rapidcheck over choice tapes + bounded exhaustive enumeration; simnet hosting the real iodined with -b; unit shape for fw_query.c; 1 reply in 5 padded with TXT records to 512..65000 bytes (must arrive unchanged)',
